@@ -10,7 +10,7 @@ import sys
 import textwrap
 from itertools import chain
 
-from ._utility import _mkdir_p
+from ._utility import _mkdir_p, _nested_dicts_to_dotted_keys
 
 logger = logging.getLogger(__name__)
 
@@ -56,15 +56,25 @@ def create_linked_view(project, prefix=None, job_ids=None, path=None):
     else:
         jobs = list(project.open_job(id=job_id) for job_id in job_ids)
 
-    key_list = [k for job in jobs for k in job.statepoint().keys()]
-    value_list = [v for job in jobs for v in job.statepoint().values()]
-    item_list = key_list + value_list
-    bad_items = [item for item in item_list if isinstance(item, str) and os.sep in item]
+    item_list = [
+        item
+        for job in jobs
+        for key_value in _nested_dicts_to_dotted_keys(job.statepoint())
+        for item in key_value
+    ]
+    # Keys and values are used as path components.
+    bad_items = [
+        item
+        for item in item_list
+        if isinstance(item, str)
+        and (os.sep in item or item in ("", os.curdir, os.pardir))
+    ]
 
-    if any(bad_items):
+    if bad_items:
         err_msg = " ".join(
             [
-                f"In order to use view, state points should not contain {os.sep}:",
+                f"In order to use view, state points should not contain {os.sep}, "
+                "empty strings or relative path components:",
                 str(set(bad_items)),
             ]
         )
@@ -75,6 +85,11 @@ def create_linked_view(project, prefix=None, job_ids=None, path=None):
     links = {}
     for job in jobs:
         paths = os.path.join(path_function(job), "job")
+        if paths in links:
+            raise RuntimeError(
+                f"The path '{paths}' is not unique, it would be used for more than "
+                "one job. Try providing a custom path, e.g. one including '{job.id}'."
+            )
         links[paths] = job.path
     if not links:  # data space contains less than two elements
         for job in project.find_jobs():
